@@ -64,7 +64,8 @@ func init() {
 			"(a thread was switched out in the middle of its program); distinct outcomes = distinct (case, observation logs): one per case when the property holds. " +
 			"Families <scenario> enumerate the quick bound (1 preemption) in both tiers; the thorough-only families <scenario>+ extend the cases to bound 2 " +
 			"(3 for bodies of at most 60 scheduling points and for copy-only) and count only the schedules beyond the quick bound; work is sharded by the subtree below the first preemption. " +
-			"sharing: reflective heap walk of the runtimes of a case at rest and with all threads stopped mid-program. " +
+			"copy-inside: the template EXECUTES a script that calls a Go host function from inside a nesting context (33 contexts: labelled statements of depth 0..6, every loop kind, switch, try/catch/finally, with, block, nested calls, direct/indirect eval and Function code, callbacks of forEach/sort/replace, a getter, a toString conversion; mostly with 3 labels pending at the call); the host function takes one Copy() per thread at that point; the template finishes its script (labels, loops, switch) and every copy runs a continuation of labelled loops/block/switch/try-finally whose label names differ per thread, then the short probe; case key = <context>/<bodies>. " +
+			"sharing: reflective heap walk of the runtimes of a case at rest and with all threads stopped mid-program (copy-inside: also inside the host callback, template mid-execution). " +
 			"After the threads of a case have finished, every runtime and the template are observed at rest (own stack depth limit, trace limit, random source, debugger handler; the template's user state; the function queued on the template's Interrupt channel before the copies were taken must still be queued). " +
 			"RACE (supervisor side): the same cases free-running under the Go race detector.",
 		Families: fams,
@@ -187,6 +188,8 @@ func plans(scenario string, thorough bool, steps map[int]int) []plan {
 		}
 		// no bodies: Copy, Copy, probe the second copy, probe the first copy
 		out = append(out, plan{Spec{scenario, [][]int{{}, {}}}, bd})
+	case ScCopyInside:
+		out = insidePlans(thorough)
 	}
 	return out
 }
@@ -209,10 +212,18 @@ func (e *execResult) observed() string {
 	return e.logs + " ## " + e.problems
 }
 
+// insideSnap is the pseudo switch number with which execute calls inspect from
+// inside the host callback of a copy-inside case (template mid-execution).
+const insideSnap = -2
+
 // execute runs one case under the scheduler with the given choice prefix.
 func execute(sp Spec, prefix []int, inspect func(c *Case, nswitch int)) *execResult {
 	var s *sched
-	c := NewCase(sp, Options{Yield: func() { s.Yield() }})
+	c := NewCase(sp, Options{Yield: func() { s.Yield() }, OnSnap: func(c *Case) {
+		if inspect != nil {
+			inspect(c, insideSnap)
+		}
+	}})
 	s = newSched(len(c.Threads), prefix)
 	s.onSwitch = func(n int) {
 		c.CheckShared(fmt.Sprintf("at context switch %d", n))
@@ -262,7 +273,7 @@ func (sc *soloCache) get(r *engine.Run, sp Spec) (string, bool) {
 	if here := RenderLogs(InProcessSolo(sp)); here != v {
 		again := RenderLogs(InProcessSolo(sp))
 		r.Mismatch(engine.Mismatch{
-			Key:      name[len(sp.Scenario)+1:] + "@solo",
+			Key:      sp.Key() + "@solo",
 			Input:    name + ": every thread run ALONE, one after the other, in a process in which other runtimes have run before",
 			Expected: v,
 			Observed: here,
@@ -311,6 +322,9 @@ func estimate(p plan, steps map[int]int) float64 {
 		}
 		if p.spec.Scenario == ScCopyOnly {
 			total += 85
+		}
+		if insideContext(p.spec.Scenario) != nil {
+			total += 230
 		}
 	}
 	e := 1.0
@@ -444,7 +458,7 @@ func exploreCase(r *engine.Run, p plan, base int, deadline time.Time, solo *solo
 		return false, false
 	}
 	name := sp.Name()
-	caseName := name[len(sp.Scenario)+1:]
+	caseName := sp.Key()
 	violations := 0
 	complete = true
 	count0 := r.Shard == 0 || r.NShards <= 1
@@ -606,6 +620,9 @@ func sharingSpecs() []Spec {
 			}
 		}
 	}
+	for _, ctx := range InsideContexts {
+		out = append(out, insideSpec(ctx, [][]int{{}, {}}))
+	}
 	out = append(out, Spec{ScScript3, [][]int{{1}, {1}, {1}}}, Spec{ScScript3, [][]int{{4}, {4}, {4}}})
 	return out
 }
@@ -625,7 +642,7 @@ func runSharing(r *engine.Run) {
 		sharingCase(r, sp, key)
 		r.End()
 	}
-	r.Bound("walk_points", "all threads stopped mid-program; at rest after completion")
+	r.Bound("walk_points", "all threads stopped mid-program; at rest after completion; copy-inside: also inside the host callback that took the copies, template mid-execution")
 }
 
 func sharingCase(r *engine.Run, sp Spec, key string) {
@@ -678,12 +695,15 @@ func sharingCase(r *engine.Run, sp Spec, key string) {
 	allowedTotal := map[string]int{}
 	walks := 0
 	inspect := func(c *Case, nswitch int) {
-		if nswitch != midSwitch && nswitch != -1 {
+		if nswitch != midSwitch && nswitch != -1 && nswitch != insideSnap {
 			return
 		}
 		when := "mid-run"
 		if nswitch == -1 {
 			when = "at rest"
+		}
+		if nswitch == insideSnap {
+			when = "inside the host callback that took the copies (template executing)"
 		}
 		type root struct {
 			name string
@@ -785,6 +805,21 @@ func runSelfCheck(r *engine.Run) {
 		if r.WantSample() {
 			r.Sample(fmt.Sprintf("solo %s: %s", b.Name, strings.Join(logs[0], " ; ")))
 		}
+	}
+	// every copy-inside context runs to completion on a template and calls snap() exactly once
+	for _, ctx := range InsideContexts {
+		func() {
+			defer func() {
+				if p := recover(); p != nil {
+					r.HarnessError(fmt.Sprint(p))
+				}
+			}()
+			sp := insideSpec(ctx, [][]int{{}, {}})
+			if back, err := ParseSpec(sp.Name()); err != nil || back.Name() != sp.Name() || back.Key() != sp.Key() {
+				r.HarnessError("case name of " + sp.Name() + " does not parse back")
+			}
+			NewCase(sp, Options{})
+		}()
 	}
 	// the scheduler replays: same prefix twice gives the same points, trace and logs
 	sp := Spec{ScFresh, [][]int{{0}, {1}}}
